@@ -63,6 +63,8 @@ def shard(s, ns, tier, seed):
                 if got == base:
                     part.keys.add(core.h64((line, l2)))
                     part.outcomes.add(core.h64(kind))
+                    if len(part.samples) < 3 and kind not in [x.get('rewrite') for x in part.samples]:
+                        part.samples.append({'rewrite': kind, 'l1': line, 'l2': l2, 'candidates': len(base)})
                 else:
                     how = got if isinstance(got, str) else ('rejected' if not got else 'differs')
                     part.violation('rewrite=%s mnemo=%s ops=%s how=%s' % (kind, mn, kd, how),
@@ -95,6 +97,8 @@ def shard(s, ns, tier, seed):
                 if got == base:
                     part.keys.add(core.h64((line, od[1])))
                     part.outcomes.add(core.h64('att'))
+                    if len(part.samples) < 5 and 'intel<->att' not in [x.get('rewrite') for x in part.samples]:
+                        part.samples.append({'rewrite': 'intel<->att', 'l1': line, 'l2': od[1], 'candidates': len(base)})
                 else:
                     how = got if isinstance(got, str) else ('rejected' if not got else ('subset' if got < base else 'superset' if got > base else 'differs'))
                     part.violation('rewrite=intel<->att mnemo=%s ops=%s how=%s' % (R.canon_mnemo(spec[0]), G.kinds(spec), how),
@@ -107,8 +111,6 @@ def run(tier, seed):
     t0 = time.time()
     core.import_x86()
     part = core.run_sharded(shard, (tier, seed), nshards=core.NPROC * 8)
-    part.samples = [{'l1': 'mov eax, DWORD PTR [eax+128]', 'l2': 'mov eax, DWORD PTR 128[eax]'}, {'l1': 'add eax, -1', 'l2': 'add eax, 4294967295'},
-                    {'l1': 'mov eax, DWORD PTR [ebx+esi*4]', 'l2': 'movl   (%ebx,%esi,4),%eax'}]
     rule = ('for every line of L_asm (vocabulary x operand-shape alphabet, arity 0..2) that asm accepts: every applicable presentation-only rewrite '
             '(registers upper-case, % prefix, size keyword lower/mixed case, 5 spacing variants, decimal/0x/0X numbers, v <-> v-2^w at the operand '
             'width the line fixes, disp[reg] / [disp+reg] / [reg+disp], index-first and scale-first term order, st <-> st(0)) singly (thorough: also '
